@@ -9,15 +9,6 @@ compares the output streams literally.
 
 open AGP Proc
 
-abbrev F := Float
-
-def hx (x : F) : String := hexOfFloat x
-def hxs (xs : List F) : String := " ".intercalate (xs.map hx)
-def hxo (x : Option F) (dflt : String) : String := match x with | some v => hx v | none => dflt
-
-def parseF (s : String) : Option F := floatOfHex? s
-def parseFs (l : List String) : Option (List F) := l.mapM parseF
-
 /-! ### driver state -/
 
 structure SvCtx where
@@ -45,9 +36,6 @@ def fne (a b : F) : Bool := a != b
 
 /-! ### formatting -/
 
-def ints (l : List Int) : String := " ".intercalate (l.map toString)
-def nats (l : List Nat) : String := " ".intercalate (l.map toString)
-def optNat (o : Option Nat) : String := match o with | some n => toString n | none => "-"
 
 def fmtItem (it : Item F) : String :=
   s!"{it.id}:{hx it.x}:{hxs it.point |>.replace " " ","}:{hx it.z}:{hx it.hv}:{if it.ev then 1 else 0}:{hx it.delta}:{hxo it.R "-inf"}"
@@ -163,8 +151,8 @@ def stepRest (c : Ctx) (toks : List String) : Ctx × String :=
     | some n, some m, some lim, some r, some eps, some bs =>
       if bs.length == 2 * n then
         let lower := bs.take n; let upper := bs.drop n
-        let p : Params F := { n := n, r := r, eps := eps, itersLimit := lim,
-                              image := fun x => Ev.getImage n m lower upper x }
+        let p : Params F := Solver.mk { n := n, lower := lower, upper := upper, eps := eps, r := r,
+                                        itersLimit := lim, evolventDensity := m }
         ({ c with sv := some { p := p, ps := {}, oracle := #[], localRes := none, printedEvals := 0, printedLog := 0 } }, "ok")
       else (c, "bad-op")
     | _, _, _, _, _, _ => (c, "bad-op")
